@@ -228,6 +228,19 @@ def run(ctx):
                         skips_on_false = pb not in et.reachable_from(list(oe["err"]), avoid={i})
                         if skips_on_true and not skips_on_false:
                             skip_colours = {col}
+            # (c) `back().is_some_and(|s| s.color() == Pending)` and `if !that { push }`
+            if skip_colours is None:
+                from rules.C09 import true_colours
+                for (i, t) in et.calls():
+                    if re.search(r"Option(<.*>|::<.*>)?::(is_some_and|map_or|is_none_or)$", callee(t)) and len(t["dest"]) == 1:
+                        for k_ in t["f"].get("fns", []):
+                            kb_ = prog.bodies.get(k_)
+                            if kb_ is None:
+                                continue
+                            cols = true_colours(prog, kb_)
+                            if cols and cols != {"Pending", "Flighting", "Recved", "Lost"} and callee(t).endswith("is_some_and"):
+                                if runs_only_when(et, t["dest"][0], False, pb):
+                                    skip_colours = set(cols)
             # (b) switch on the colour discriminant
             if skip_colours is None:
                 for sb in et.live_blocks():
